@@ -18,9 +18,17 @@ def escape_quotes_and_backslashes(s):
 _BARE_PATH_STEP_RE = re.compile(r"^[a-zA-Z_][a-zA-Z0-9_]*\Z")
 
 
+# ... and is not one of its keywords.
+_PATTERN_KEYWORDS = frozenset((
+    "AND", "OR", "NOT", "FOLLOWEDBY", "LIKE", "MATCHES", "ISSUPERSET",
+    "ISSUBSET", "EXISTS", "LAST", "IN", "START", "STOP", "SECONDS", "true",
+    "false", "WITHIN", "REPEATS", "TIMES",
+))
+
+
 def quote_if_needed(x):
     if isinstance(x, str):
-        if not _BARE_PATH_STEP_RE.match(x):
+        if not _BARE_PATH_STEP_RE.match(x) or x in _PATTERN_KEYWORDS:
             if not x.startswith("'"):
                 return "'" + x + "'"
     return x
